@@ -11,7 +11,25 @@ IMPL_SHARDS = 8
 PER_SHARD = 12
 KERNEL_SAMPLE = 30
 
-THEOREMS = []  # filled in below (after the generator, to keep the statements readable)
+THEOREMS = [
+    ("finished_after_all",
+     "forall s : state, reachable repaired s -> finished s = true -> all_done s = true"),
+    ("finished_listeners_closed",
+     "forall s : state, reachable repaired s -> finished s = true -> forallb (fun l => negb (l_bound l)) (ls s) = true"),
+    ("no_hang",
+     "forall s : state, reachable repaired s -> requested s = true -> quiescent repaired s -> completed s = true"),
+    ("hooks_before_finished",
+     "forall s : state, reachable repaired s -> finished s = true -> "
+     "(want s <= count h_acked (hooks s))%nat /\\ "
+     "(want s = pre_count s -> forall h p, nth_error (hooks s) h = Some p -> h_registered p = true -> h_acked p = true)"),
+    ("finished_after_all_today_refuted",
+     "exists s, reachable today s /\\ finished s = true /\\ all_done s = false"),
+    ("no_hang_today_panic_refuted",
+     "exists s, reachable today s /\\ requested s = true /\\ quiescent today s /\\ finished s = false"),
+    ("no_hang_today_late_waker_refuted",
+     "exists s, reachable today s /\\ requested s = true /\\ quiescent today s /\\ finished s = true /\\ "
+     "forallb l_exited (ls s) = false"),
+]
 
 # ----------------------------------------------------------------------------------------------
 # A mirror of Model/Shutdown.v's [step], used ONLY to generate schedules whose labels are enabled.
@@ -340,7 +358,7 @@ DIRECTED = [
     ((1, 1, 0, 1), "L0 S0 S0 S0 S0 L0 L0 L0 L0 L0 L0 K K K W0"),
     ((2, 1, 0, 1), "L0 L1 L1 L1 L1 S0 S0 S0 S0 L0 L0 L0 L0 L0 L0 L1 L1 L1 L1 L1 L1 L1 K K K W0"),
     # zero connections, two callers, one hook
-    ((1, 2, 1, 1), "H0 S0 S1 S0 S1 S0 S1 S0 S1 L0 L0 L0 L0 L0 K K H0 K H0 K K W0"),
+    ((1, 2, 1, 1), "H0 S0 S1 S0 S1 S0 S1 S0 S1 L0 L0 L0 L0 L0 K K H0 H0 K K W0"),
     # the last connection ends while the flag is being set
     ((1, 1, 0, 1), "E0 T0 L0 L0 C0 S0 C0 S0 S0 S0 C0 C0 L0 L0 L0 L0 L0 K K K W0"),
 ]
@@ -385,8 +403,8 @@ def generate(rng, tier):
         cases.append(meth(random_ops(rng, rng.randrange(1, 24 if quick else 60)), "methods-random"))
     # ---- schedules from the reachable graph of the model ------------------------------------------------
     shapes = [(1, 1, 0, 1), (1, 1, 0, 0), (2, 1, 0, 1), (1, 2, 0, 1), (1, 1, 1, 1), (2, 2, 1, 1), (2, 1, 1, 0), (1, 0, 0, 1)]
-    nbfs = 14 if quick else 900
-    nrand = 30 if quick else 2500
+    nbfs = 40 if quick else 900
+    nrand = 160 if quick else 2500
     for j in range(nbfs):
         n = shapes[j % len(shapes)]
         paths = bfs_paths(REPAIRED, n[0], n[1], n[2], n[3], rng.choice([1, 2, 3]), 7 if quick else 9, 1500 if quick else 6000)
